@@ -104,8 +104,8 @@ Variable shuffle : nat -> list entry -> list entry.
 Hypothesis shuffle_In : forall c l e, In e (shuffle c l) <-> In e l.
 
 Notation idx_steps := (index_steps shuffle false).
-Notation steps := (op_steps H shuffle false false).
-Notation runop := (run_op H shuffle false false).
+Notation steps := (op_steps H shuffle false false true).
+Notation runop := (run_op H shuffle false false true).
 
 (* ---------- Recoverable only looks at oci-layout, index.json and blobs/ ---------- *)
 Definition nt_eq (a c : FS) : Prop := forall p, is_temp p = false -> files a p = files c p.
@@ -728,7 +728,7 @@ Lemma op_safe s o :
   (Agree s -> Agree (runop s o)) /\
   (forall d', exists_file (sfs (runop s o)) (FBlob d')
               = spec_blobs_step H (fun x => exists_file (sfs s) (FBlob x)) o d') /\
-  forall k, Recoverable H (sfs s) (crash_fs H shuffle false false s o k) (sfs (runop s o)).
+  forall k, Recoverable H (sfs s) (crash_fs H shuffle false false true s o k) (sfs (runop s o)).
 Proof.
   intro I. unfold run_op, crash_fs, op_steps. destruct o as [d cont man|d r|r|d| |live].
   - (* Push *)
@@ -808,21 +808,21 @@ Qed.
 Lemma agree_init : Agree init.
 Proof. exists []. split; [reflexivity|]. intro e. cbn. tauto. Qed.
 
-Lemma inv_run h : forall s, Inv s -> Inv (run H shuffle false false h s).
+Lemma inv_run h : forall s, Inv s -> Inv (run H shuffle false false true h s).
 Proof.
   induction h as [|o h IH]; intros s I; [exact I|].
   cbn [run fold_left]. apply IH. now apply op_safe.
 Qed.
 
-Lemma agree_run h : forall s, Inv s -> Agree s -> Agree (run H shuffle false false h s).
+Lemma agree_run h : forall s, Inv s -> Agree s -> Agree (run H shuffle false false true h s).
 Proof.
   induction h as [|o h IH]; intros s I A; [exact A|].
   cbn [run fold_left]. destruct (op_safe s o I) as (I1 & A1 & _). apply IH; [exact I1|now apply A1].
 Qed.
 
 Theorem crash_safe h o k :
-  let s := run H shuffle false false h init in
-  Recoverable H (sfs s) (crash_fs H shuffle false false s o k) (sfs (run_op H shuffle false false s o)).
+  let s := run H shuffle false false true h init in
+  Recoverable H (sfs s) (crash_fs H shuffle false false true s o k) (sfs (run_op H shuffle false false true s o)).
 Proof. intro s. apply op_safe. apply inv_run. apply inv_init. Qed.
 
 (* what the statement says in words, as corollaries *)
@@ -834,9 +834,9 @@ Proof.
 Qed.
 
 Corollary crash_tags_before_or_after h o k :
-  let s := run H shuffle false false h init in
-  let fsk := crash_fs H shuffle false false s o k in
-  same_tags fsk (sfs s) \/ same_tags fsk (sfs (run_op H shuffle false false s o)).
+  let s := run H shuffle false false true h init in
+  let fsk := crash_fs H shuffle false false true s o k in
+  same_tags fsk (sfs s) \/ same_tags fsk (sfs (run_op H shuffle false false true s o)).
 Proof. intros s fsk. apply rec_same_tags. apply crash_safe. Qed.
 
 (* ---------- completed operations: the directory refines the sequential specification ---------- *)
@@ -902,14 +902,14 @@ Qed.
 
 Lemma rel_run h : forall s bs tg,
   Inv s -> Rel s bs tg ->
-  Rel (run H shuffle false false h s) (fst (spec_run H h bs tg)) (snd (spec_run H h bs tg)).
+  Rel (run H shuffle false false true h s) (fst (spec_run H h bs tg)) (snd (spec_run H h bs tg)).
 Proof.
   induction h as [|o h IH]; intros s bs tg I R; [exact R|].
   cbn [run fold_left spec_run]. apply IH; [now apply op_safe|now apply rel_step].
 Qed.
 
 Theorem completed_effects h :
-  let s := run H shuffle false false h init in
+  let s := run H shuffle false false true h init in
   let bs := fst (spec_run H h (fun _ => false) (fun _ => None)) in
   let tg := snd (spec_run H h (fun _ => false) (fun _ => None)) in
   (forall d, exists_file (sfs s) (FBlob d) = bs d) /\
@@ -973,7 +973,7 @@ Ltac tc_solve :=
 
 Lemma op_steps_tc s o : all_tc (sctr s) (steps s o).
 Proof.
-  unfold op_steps. destruct o as [d cont man|d r|r|d| |live]; cbn [op_mem].
+  unfold op_steps. cbv beta iota delta [auto_idx]. destruct o as [d cont man|d r|r|d| |live]; cbn [op_mem].
   - destruct (exists_file (sfs s) (FBlob d)); [apply all_tc_nil|].
     destruct (H cont =? d); cbn [negb]; destruct man; tc_solve.
   - destruct (exists_file (sfs s) (FBlob d)); tc_solve.
@@ -1083,7 +1083,7 @@ Proof.
 Qed.
 
 Lemma reopen_inv s o k :
-  Inv s -> Inv (reopen (crash_fs H shuffle false false s o k) (S (sctr s))).
+  Inv s -> Inv (reopen (crash_fs H shuffle false false true s o k) (S (sctr s))).
 Proof.
   intro I. destruct (op_safe s o I) as (I1 & _ & _ & R).
   destruct (R k) as (L & B & (l & Hl & He) & RI & _).
@@ -1093,7 +1093,7 @@ Proof.
       intros r n n' H1 H2. apply Hn0 in H1, H2. exact (inv_fun s I r n n' H1 H2).
     - destruct (inv_named _ I1) as (l1 & Hl1 & Hn1). rewrite Hl1 in RI. injection RI as <-.
       intros r n n' H1 H2. apply Hn1 in H1, H2. exact (inv_fun _ I1 r n n' H1 H2). }
-  set (fsk := crash_fs H shuffle false false s o k) in *.
+  set (fsk := crash_fs H shuffle false false true s o k) in *.
   unfold reopen. rewrite Hl.
   destruct (load_spec l [] []) as (A1 & A2 & _ & A4); [intros r n []|].
   constructor; cbn [sfs stags sdigs sctr].
@@ -1111,10 +1111,10 @@ Proof.
     split; [intro Hin; now left|intros [Hin|[[] _]]; exact Hin].
 Qed.
 
-Lemma inv_run_hop s x : Inv s -> Inv (run_hop H shuffle false false s x).
+Lemma inv_run_hop s x : Inv s -> Inv (run_hop H shuffle false false true s x).
 Proof. intro I. destruct x as [o|o k]; cbn [run_hop]; [now apply op_safe|now apply reopen_inv]. Qed.
 
-Lemma inv_runc h : forall s, Inv s -> Inv (runc H shuffle false false h s).
+Lemma inv_runc h : forall s, Inv s -> Inv (runc H shuffle false false true h s).
 Proof.
   induction h as [|x h IH]; intros s I; [exact I|].
   cbn [runc fold_left]. apply IH. now apply inv_run_hop.
@@ -1123,8 +1123,8 @@ Qed.
 (* after any history in which operations completed or were interrupted at any cut (the
    store being reopened after each crash), the next operation is crash-safe again *)
 Theorem crash_safe_recovered (h : list hop) o k :
-  let s := runc H shuffle false false h init in
-  Recoverable H (sfs s) (crash_fs H shuffle false false s o k) (sfs (run_op H shuffle false false s o)).
+  let s := runc H shuffle false false true h init in
+  Recoverable H (sfs s) (crash_fs H shuffle false false true s o k) (sfs (run_op H shuffle false false true s o)).
 Proof. intro s. apply op_safe. apply inv_runc. apply inv_init. Qed.
 
 (* ---------- nothing that stays is ever written in place ---------- *)
@@ -1171,7 +1171,7 @@ Ltac ipf_solve :=
 
 Theorem no_in_place_write s o : all_ipf (steps s o).
 Proof.
-  unfold op_steps. destruct o as [d cont man|d r|r|d| |live]; cbn [op_mem].
+  unfold op_steps. cbv beta iota delta [auto_idx]. destruct o as [d cont man|d r|r|d| |live]; cbn [op_mem].
   - destruct (exists_file (sfs s) (FBlob d)); [apply all_ipf_nil|].
     destruct (H cont =? d); cbn [negb]; destruct man; ipf_solve.
   - destruct (exists_file (sfs s) (FBlob d)); ipf_solve.
@@ -1191,14 +1191,14 @@ Proof. unfold run_op. destruct (op_mem H s o). reflexivity. Qed.
 Lemma seq_cut os : forall s k,
   (exists pre o post k',
      os = pre ++ o :: post /\
-     crash_seq H shuffle false false s os k
-       = crash_fs H shuffle false false (run H shuffle false false pre s) o k') \/
-  crash_seq H shuffle false false s os k = sfs (run H shuffle false false os s).
+     crash_seq H shuffle false false true s os k
+       = crash_fs H shuffle false false true (run H shuffle false false true pre s) o k') \/
+  crash_seq H shuffle false false true s os k = sfs (run H shuffle false false true os s).
 Proof.
   induction os as [|o os IH]; intros s k.
   - right. unfold crash_seq. cbn. now rewrite firstn_nil.
   - unfold crash_seq. cbn [steps_seq].
-    destruct (firstn_app_cases k (steps s o) (steps_seq H shuffle false false (runop s o) os)) as [[E _]|(k' & E)].
+    destruct (firstn_app_cases k (steps s o) (steps_seq H shuffle false false true (runop s o) os)) as [[E _]|(k' & E)].
     + left. exists [], o, os, k. split; [reflexivity|]. rewrite E. reflexivity.
     + rewrite E, apply_app.
       rewrite <- sfs_run_op.
@@ -1209,20 +1209,20 @@ Proof.
 Qed.
 
 Lemma inv_runc_app (h : list hop) pre :
-  Inv (run H shuffle false false pre (runc H shuffle false false h init)).
+  Inv (run H shuffle false false true pre (runc H shuffle false false true h init)).
 Proof. apply inv_run. apply inv_runc. apply inv_init. Qed.
 
 (* every cut of a composite call, after any history with earlier crashes: the directory is
    a crash state of one primitive [o] of the call, between the quiescent states before and
    after [o]; both are reached by completed primitives only *)
 Theorem crash_safe_composite (h : list hop) (os : list op) k :
-  let s := runc H shuffle false false h init in
-  let fsk := crash_seq H shuffle false false s os k in
+  let s := runc H shuffle false false true h init in
+  let fsk := crash_seq H shuffle false false true s os k in
   (exists pre o post,
      os = pre ++ o :: post /\
-     let sj := run H shuffle false false pre s in
-     Recoverable H (sfs sj) fsk (sfs (run_op H shuffle false false sj o))) \/
-  (fsk = sfs (run H shuffle false false os s) /\ Good fsk).
+     let sj := run H shuffle false false true pre s in
+     Recoverable H (sfs sj) fsk (sfs (run_op H shuffle false false true sj o))) \/
+  (fsk = sfs (run H shuffle false false true os s) /\ Good fsk).
 Proof.
   intros s fsk. destruct (seq_cut os s k) as [(pre & o & post & k' & Eq & Ec)|Ef].
   - left. exists pre, o, post. split; [exact Eq|]. cbn zeta. unfold fsk. rewrite Ec.
@@ -1233,7 +1233,7 @@ Qed.
 
 (* whatever the cut of a composite call: the static part of the property *)
 Corollary crash_composite_good (h : list hop) (os : list op) k :
-  Good (crash_seq H shuffle false false (runc H shuffle false false h init) os k).
+  Good (crash_seq H shuffle false false true (runc H shuffle false false true h init) os k).
 Proof.
   destruct (crash_safe_composite h os k) as [(pre & o & post & _ & (L & B & Ix & _))|[_ G]].
   - exact (conj L (conj B Ix)).
@@ -1286,7 +1286,7 @@ Qed.
 
 Lemma shrinking_run os : forall s d,
   Inv s -> (forall o, In o os -> shrinking o) ->
-  has (sfs (run H shuffle false false os s)) (FBlob d) -> has (sfs s) (FBlob d).
+  has (sfs (run H shuffle false false true os s)) (FBlob d) -> has (sfs s) (FBlob d).
 Proof.
   induction os as [|o os IH]; intros s d I Hs Hh; [exact Hh|].
   cbn [run fold_left] in Hh.
@@ -1296,27 +1296,27 @@ Qed.
 
 Theorem crash_shrinking_between (h : list hop) (os : list op) k :
   (forall o, In o os -> shrinking o) ->
-  let s := runc H shuffle false false h init in
-  let fsk := crash_seq H shuffle false false s os k in
-  let fs1 := sfs (run H shuffle false false os s) in
+  let s := runc H shuffle false false true h init in
+  let fsk := crash_seq H shuffle false false true s os k in
+  let fs1 := sfs (run H shuffle false false true os s) in
   (forall d, has (sfs s) (FBlob d) -> has fs1 (FBlob d) -> has fsk (FBlob d)) /\
   (forall d, has fsk (FBlob d) -> has (sfs s) (FBlob d)).
 Proof.
   intros Hs s fsk fs1. subst fsk fs1.
   assert (I : Inv s) by (apply inv_runc; apply inv_init).
   pose proof (crash_safe_composite h os k) as C. cbn zeta in C. fold s in C.
-  set (fsk := crash_seq H shuffle false false s os k) in *.
-  set (fs1 := sfs (run H shuffle false false os s)) in *.
+  set (fsk := crash_seq H shuffle false false true s os k) in *.
+  set (fs1 := sfs (run H shuffle false false true os s)) in *.
   destruct C as [(pre & o & post & Eq & R)|[Ef _]].
   - cbn zeta in R.
-    set (sj := run H shuffle false false pre s) in *.
+    set (sj := run H shuffle false false true pre s) in *.
     assert (Ij : Inv sj) by (apply inv_run; exact I).
     assert (Hpre : forall o', In o' pre -> shrinking o').
     { intros o' Hin. apply Hs. rewrite Eq. apply in_or_app. now left. }
     assert (Ho : shrinking o). { apply Hs. rewrite Eq. apply in_or_app. right. now left. }
     assert (Hpost : forall o', In o' post -> shrinking o').
     { intros o' Hin. apply Hs. rewrite Eq. apply in_or_app. right. now right. }
-    assert (E1 : fs1 = sfs (run H shuffle false false post (runop sj o))).
+    assert (E1 : fs1 = sfs (run H shuffle false false true post (runop sj o))).
     { unfold fs1. rewrite Eq. unfold run. rewrite fold_left_app. reflexivity. }
     destruct R as (_ & _ & _ & _ & P1 & P2). split.
     + intros d H0 H1. apply P1.
@@ -1363,20 +1363,20 @@ Qed.
 
 Lemma untagged_deletes_tags os : forall s,
   (forall o, In o os -> untagged_delete (stags s) o) ->
-  stags (run H shuffle false false os s) = stags s.
+  stags (run H shuffle false false true os s) = stags s.
 Proof.
   induction os as [|o os IH]; intros s Ho; [reflexivity|].
-  change (run H shuffle false false (o :: os) s) with (run H shuffle false false os (runop s o)).
+  change (run H shuffle false false true (o :: os) s) with (run H shuffle false false true os (runop s o)).
   assert (E : stags (runop s o) = stags s) by (apply untagged_delete_tags; apply Ho; now left).
   rewrite IH; [exact E|]. intros o' Hin. rewrite E. apply Ho. now right.
 Qed.
 
 Theorem cascade_tags (h : list hop) d xs k :
-  let s := runc H shuffle false false h init in
+  let s := runc H shuffle false false true h init in
   (forall l, read_index (sfs s) = Some l -> forall x r, In x xs -> ~ tag_of l r x) ->
   let os := Delete d :: map Delete xs in
-  let fsk := crash_seq H shuffle false false s os k in
-  same_tags fsk (sfs s) \/ same_tags fsk (sfs (run H shuffle false false os s)).
+  let fsk := crash_seq H shuffle false false true s os k in
+  same_tags fsk (sfs s) \/ same_tags fsk (sfs (run H shuffle false false true os s)).
 Proof.
   intros s Hun os fsk.
   assert (I : Inv s) by (apply inv_runc; apply inv_init).
@@ -1391,9 +1391,9 @@ Proof.
     intros r Ht. unfold s1, run_op in Ht. cbn [op_mem stags] in Ht.
     apply filter_In in Ht as [Ht _]. exact (Hun0 x r Hin Ht). }
   assert (Hsub : forall ps, (forall o, In o ps -> In o (map Delete xs)) ->
-                  stags (run H shuffle false false ps s1) = stags s1).
+                  stags (run H shuffle false false true ps s1) = stags s1).
   { intros ps Hps. apply untagged_deletes_tags. intros o Hin. apply Hun1. now apply Hps. }
-  set (sn := run H shuffle false false os s).
+  set (sn := run H shuffle false false true os s).
   assert (En : stags sn = stags s1).
   { unfold sn, os. cbn [run fold_left]. apply Hsub. auto. }
   assert (In_ : Inv sn) by (unfold sn; apply inv_run; exact I).
@@ -1411,7 +1411,7 @@ Proof.
       assert (Hpre : forall o', In o' pre -> In o' (map Delete xs)).
       { intros o' Hin. rewrite Eq. apply in_or_app. now left. }
       assert (Ho : In o (map Delete xs)) by (rewrite Eq; apply in_or_app; right; now left).
-      set (sj := run H shuffle false false pre s1) in *.
+      set (sj := run H shuffle false false true pre s1) in *.
       assert (Ij : Inv sj) by (apply inv_run; exact I1).
       assert (Ej : stags sj = stags s1) by (apply Hsub; exact Hpre).
       destruct R as [R|R]; apply (same_tags_trans _ _ _ R).
@@ -1429,9 +1429,9 @@ End Crash.
 (* ---------- the code before the repair: index.json written in place ---------- *)
 Lemma crash_unsafe_inplace (H : list N -> N) :
   exists h o k,
-    let s := run H (fun _ l => l) true false h init in
-    ~ Recoverable H (sfs s) (crash_fs H (fun _ l => l) true false s o k)
-        (sfs (run_op H (fun _ l => l) true false s o)).
+    let s := run H (fun _ l => l) true false true h init in
+    ~ Recoverable H (sfs s) (crash_fs H (fun _ l => l) true false true s o k)
+        (sfs (run_op H (fun _ l => l) true false true s o)).
 Proof.
   exists [], SaveIndex, 1%nat. cbn zeta. intros (_ & _ & (l & Hl & _) & _).
   cbn in Hl. discriminate.
@@ -1439,16 +1439,16 @@ Qed.
 
 (* after the cut between open(O_TRUNC) and write, index.json is empty: a reader cannot parse it *)
 Lemma crash_inplace_index_unreadable (H : list N -> N) :
-  read_index (crash_fs H (fun _ l => l) true false init SaveIndex 1) = None.
+  read_index (crash_fs H (fun _ l => l) true false true init SaveIndex 1) = None.
 Proof. reflexivity. Qed.
 
 (* Store.delete with the two effects swapped (blob unlinked before index.json is rewritten):
    a cut between them leaves an index entry that names a missing blob *)
 Lemma crash_unsafe_unlink_first :
   exists H h o k,
-    let s := run H (fun _ l => l) false true h init in
-    ~ Recoverable H (sfs s) (crash_fs H (fun _ l => l) false true s o k)
-        (sfs (run_op H (fun _ l => l) false true s o)).
+    let s := run H (fun _ l => l) false true true h init in
+    ~ Recoverable H (sfs s) (crash_fs H (fun _ l => l) false true true s o k)
+        (sfs (run_op H (fun _ l => l) false true true s o)).
 Proof.
   exists (fun _ => 2), [Push 2 [9] true], (Delete 2), 1%nat. cbn zeta.
   intros (_ & _ & (l & Hl & He) & _).
@@ -1473,26 +1473,26 @@ Theorem crash_safe_src :
   forall (H : list N -> N) (shuffle : nat -> list entry -> list entry),
     (forall c l e, In e (shuffle c l) <-> In e l) ->
     forall (h : list op) (o : op) (k : nat),
-      let s := run H shuffle src_inplace src_unlink_first h init in
-      Recoverable H (sfs s) (crash_fs H shuffle src_inplace src_unlink_first s o k)
-        (sfs (run_op H shuffle src_inplace src_unlink_first s o)).
+      let s := run H shuffle src_inplace src_unlink_first true h init in
+      Recoverable H (sfs s) (crash_fs H shuffle src_inplace src_unlink_first true s o k)
+        (sfs (run_op H shuffle src_inplace src_unlink_first true s o)).
 Proof. rewrite src_inplace_false, src_unlink_first_false. exact crash_safe. Qed.
 
 Theorem crash_tags_src :
   forall (H : list N -> N) (shuffle : nat -> list entry -> list entry),
     (forall c l e, In e (shuffle c l) <-> In e l) ->
     forall (h : list op) (o : op) (k : nat),
-      let s := run H shuffle src_inplace src_unlink_first h init in
-      let fsk := crash_fs H shuffle src_inplace src_unlink_first s o k in
+      let s := run H shuffle src_inplace src_unlink_first true h init in
+      let fsk := crash_fs H shuffle src_inplace src_unlink_first true s o k in
       same_tags fsk (sfs s) \/
-      same_tags fsk (sfs (run_op H shuffle src_inplace src_unlink_first s o)).
+      same_tags fsk (sfs (run_op H shuffle src_inplace src_unlink_first true s o)).
 Proof. rewrite src_inplace_false, src_unlink_first_false. exact crash_tags_before_or_after. Qed.
 
 Theorem completed_effects_src :
   forall (H : list N -> N) (shuffle : nat -> list entry -> list entry),
     (forall c l e, In e (shuffle c l) <-> In e l) ->
     forall (h : list op),
-      let s := run H shuffle src_inplace src_unlink_first h init in
+      let s := run H shuffle src_inplace src_unlink_first true h init in
       let bs := fst (spec_run H h (fun _ => false) (fun _ => None)) in
       let tg := snd (spec_run H h (fun _ => false) (fun _ => None)) in
       (forall d, exists_file (sfs s) (FBlob d) = bs d) /\
@@ -1503,14 +1503,14 @@ Theorem crash_safe_recovered_src :
   forall (H : list N -> N) (shuffle : nat -> list entry -> list entry),
     (forall c l e, In e (shuffle c l) <-> In e l) ->
     forall (h : list hop) (o : op) (k : nat),
-      let s := runc H shuffle src_inplace src_unlink_first h init in
-      Recoverable H (sfs s) (crash_fs H shuffle src_inplace src_unlink_first s o k)
-        (sfs (run_op H shuffle src_inplace src_unlink_first s o)).
+      let s := runc H shuffle src_inplace src_unlink_first true h init in
+      Recoverable H (sfs s) (crash_fs H shuffle src_inplace src_unlink_first true s o k)
+        (sfs (run_op H shuffle src_inplace src_unlink_first true s o)).
 Proof. rewrite src_inplace_false, src_unlink_first_false. exact crash_safe_recovered. Qed.
 
 Theorem no_in_place_write_src :
   forall (H : list N -> N) (shuffle : nat -> list entry -> list entry) (s : st) (o : op) (m : mstep),
-    In m (op_steps H shuffle src_inplace src_unlink_first s o) ->
+    In m (op_steps H shuffle src_inplace src_unlink_first true s o) ->
     match m with
     | Create p | OpenTrunc p | Write p _ | Chmod p => is_temp p = true
     | _ => True
@@ -1524,13 +1524,13 @@ Theorem crash_safe_composite_src :
   forall (H : list N -> N) (shuffle : nat -> list entry -> list entry),
     (forall c l e, In e (shuffle c l) <-> In e l) ->
     forall (h : list hop) (os : list op) (k : nat),
-      let s := runc H shuffle src_inplace src_unlink_first h init in
-      let fsk := crash_seq H shuffle src_inplace src_unlink_first s os k in
+      let s := runc H shuffle src_inplace src_unlink_first true h init in
+      let fsk := crash_seq H shuffle src_inplace src_unlink_first true s os k in
       (exists pre o post,
          os = pre ++ o :: post /\
-         let sj := run H shuffle src_inplace src_unlink_first pre s in
-         Recoverable H (sfs sj) fsk (sfs (run_op H shuffle src_inplace src_unlink_first sj o))) \/
-      (fsk = sfs (run H shuffle src_inplace src_unlink_first os s) /\
+         let sj := run H shuffle src_inplace src_unlink_first true pre s in
+         Recoverable H (sfs sj) fsk (sfs (run_op H shuffle src_inplace src_unlink_first true sj o))) \/
+      (fsk = sfs (run H shuffle src_inplace src_unlink_first true os s) /\
        layout_ok fsk /\ blob_ok H fsk /\ index_ok fsk).
 Proof. rewrite src_inplace_false, src_unlink_first_false. exact crash_safe_composite. Qed.
 
@@ -1559,9 +1559,9 @@ Theorem crash_shrinking_between_src :
     (forall c l e, In e (shuffle c l) <-> In e l) ->
     forall (h : list hop) (os : list op) (k : nat),
       (forall o, In o os -> match o with Delete _ | Forget _ | SaveIndex => True | _ => False end) ->
-      let s := runc H shuffle src_inplace src_unlink_first h init in
-      let fsk := crash_seq H shuffle src_inplace src_unlink_first s os k in
-      let fs1 := sfs (run H shuffle src_inplace src_unlink_first os s) in
+      let s := runc H shuffle src_inplace src_unlink_first true h init in
+      let fsk := crash_seq H shuffle src_inplace src_unlink_first true s os k in
+      let fs1 := sfs (run H shuffle src_inplace src_unlink_first true os s) in
       (forall d, has (sfs s) (FBlob d) -> has fs1 (FBlob d) -> has fsk (FBlob d)) /\
       (forall d, has fsk (FBlob d) -> has (sfs s) (FBlob d)).
 Proof. rewrite src_inplace_false, src_unlink_first_false. exact crash_shrinking_between. Qed.
@@ -1570,10 +1570,25 @@ Theorem cascade_tags_src :
   forall (H : list N -> N) (shuffle : nat -> list entry -> list entry),
     (forall c l e, In e (shuffle c l) <-> In e l) ->
     forall (h : list hop) (d : N) (xs : list N) (k : nat),
-      let s := runc H shuffle src_inplace src_unlink_first h init in
+      let s := runc H shuffle src_inplace src_unlink_first true h init in
       (forall l, read_index (sfs s) = Some l -> forall x r, In x xs -> ~ tag_of l r x) ->
       let os := Delete d :: map Delete xs in
-      let fsk := crash_seq H shuffle src_inplace src_unlink_first s os k in
-      same_tags fsk (sfs s) \/ same_tags fsk (sfs (run H shuffle src_inplace src_unlink_first os s)).
+      let fsk := crash_seq H shuffle src_inplace src_unlink_first true s os k in
+      same_tags fsk (sfs s) \/ same_tags fsk (sfs (run H shuffle src_inplace src_unlink_first true os s)).
 Proof. rewrite src_inplace_false, src_unlink_first_false. exact cascade_tags. Qed.
+
+(* AutoSaveIndex = false: Delete unlinks the blob although the index.json saved earlier still
+   names it -- already the completed Delete (and every cut after its unlink) leaves an
+   index entry without a blob, until the caller's next SaveIndex *)
+Lemma crash_unsafe_autosave_off :
+  exists H h o k,
+    let s := run H (fun _ l => l) false false false h init in
+    ~ Recoverable H (sfs s) (crash_fs H (fun _ l => l) false false false s o k)
+        (sfs (run_op H (fun _ l => l) false false false s o)).
+Proof.
+  exists (fun _ => 2), [Push 2 [9] true; Tag 2 5; SaveIndex], (Delete 2), 1%nat. cbn zeta.
+  intros (_ & _ & (l & Hl & He) & _).
+  vm_compute in Hl. injection Hl as <-.
+  specialize (He (2, Some 5) (or_introl eq_refl)). apply He. vm_compute. reflexivity.
+Qed.
 
